@@ -215,6 +215,23 @@ func GenBlocks(t *rapid.T, gen []GenVal, freq int, n int, maxEv int) []BlockSpec
 			out[i0+2].Ops = append(out[i0+2].Ops, Op{K: "vdeposit", V: v, M: 1, P: 3})
 		}
 	}
+	// Contract activity beyond transfers (half of the cases): an inspecting contract (EXTCODESIZE / EXTCODEHASH /
+	// BALANCE / EXTCODECOPY / SSTORE / LOG / value CALL on a generated address) and a CREATE factory are deployed
+	// early and called a few times with drawn targets (plain funded accounts, validator main addresses and
+	// coinbases, the staking module, the reward pool, contracts incl. self-destructed ones, absent addresses).
+	if n >= 4 && rapid.Bool().Draw(t, "contracts") {
+		d := rapid.IntRange(0, 1).Draw(t, "deploy-at")
+		out[d].Ops = append(out[d].Ops, Op{K: "deploy", A: AcctPlain, X: KindProbe, P: 1}, Op{K: "deploy", A: AcctPlain + 1, X: KindFactory, P: 2})
+		for i, nc := 0, rapid.IntRange(1, 5).Draw(t, "ncalls"); i < nc; i++ {
+			at := rapid.IntRange(d+1, n-1).Draw(t, "call-at")
+			kind := KindProbe
+			if rapid.IntRange(0, 3).Draw(t, "call-factory") == 0 {
+				kind = KindFactory
+			}
+			out[at].Ops = append(out[at].Ops, Op{K: "call", A: rapid.IntRange(0, NSenders-1).Draw(t, "caller"), X: ByKind + kind,
+				Y: rapid.IntRange(0, NAcct+18).Draw(t, "target"), M: rapid.IntRange(0, 2).Draw(t, "with-value"), N: rapid.IntRange(0, 79).Draw(t, "value"), P: rapid.IntRange(0, 5).Draw(t, "price")})
+		}
+	}
 	if rapid.IntRange(0, 3).Draw(t, "scenario2") == 0 {
 		AddUnbindScenario(t, out, gen, freq)
 	}
